@@ -131,6 +131,38 @@ Theorem dense_row_weight_ignore_nothing : forall m i, WFd m -> words32 m -> padz
   d_row_weight_ignore_first m i 0 = Some (Z.of_nat (d_row_weight m i)).
 Proof. exact row_weight_ignore_first_0. Qed.
 
+(* ---- "within the bounds of the matrices given": bounds-checked copy of the solver and of the index translation around it
+   (SolveBounds.v).  DenseSolve.v reads with `nth i l default` and writes with `upd`, both total; solve_chk goes through
+   accessors that FAIL out of range (and on two rows of different lengths in the word-granular row XOR).  It refines the
+   plain model unconditionally, and on a well-shaped p x q system (p rows of q bits, p constant terms) it is never out of
+   bounds: it returns exactly what the plain model returns.  The same for take_ct (the C's stale index_rows) and write_back
+   (the positional copy-out) with the arguments ml_finish passes them. *)
+From OFV Require SolveBounds.
+Theorem checked_solver_refines_the_model : forall (Sy : Type) (sxor : Sy -> Sy -> Sy) (s0 : Sy) p q (y : sys Sy),
+  (forall x, SolveBounds.solve_chk Sy sxor s0 p q y = SolveBounds.Solved x -> solve Sy sxor s0 p q y = Some x) /\
+  (SolveBounds.solve_chk Sy sxor s0 p q y = SolveBounds.NoSolution -> solve Sy sxor s0 p q y = None).
+Proof. exact SolveBounds.solve_chk_refines. Qed.
+Theorem solver_stays_within_the_matrix_given : forall (Sy : Type) (sxor : Sy -> Sy -> Sy) (s0 : Sy) p q (y : sys Sy),
+  length (sA y) = p -> (forall row, In row (sA y) -> length row = q) -> length (sb y) = p ->
+  SolveBounds.solve_chk Sy sxor s0 p q y <> SolveBounds.OutOfBounds.
+Proof. exact SolveBounds.solve_chk_never_oob'. Qed.
+Theorem ml_finish_index_translation_stays_in_range :
+  forall (Sy : Type) (sxor : Sy -> Sy -> Sy) (s0 : Sy),
+  (forall a b c, sxor a (sxor b c) = sxor (sxor a b) c) -> (forall a b, sxor a b = sxor b a) ->
+  (forall a, sxor s0 a = a) -> (forall a, sxor a a = s0) ->
+  forall (H0 : list (list nat)) (R0 N0 : nat), length H0 = R0 -> (forall i, i < R0 -> NoDup (nth i H0 [])) ->
+  (forall i c, i < R0 -> In c (nth i H0 []) -> c < N0) -> (forall i, i < R0 -> 2 <= length (nth i H0 [])) -> R0 <= N0 ->
+  forall cw : nat -> Sy, (forall i, i < R0 -> ITProofs.xs Sy sxor s0 cw (nth i H0 []) = s0) ->
+  (forall c, c < N0 -> exists i, i < R0 /\ In c (nth i H0 [])) ->
+  forall fuel perm (s : ITModel.st Sy), MLSimplify.MLPre Sy H0 R0 N0 cw s -> N0 < fuel ->
+  (forall c, c < R0 -> In c perm) -> (forall c, In c perm -> c < R0) ->
+  SolveBounds.ml_finish_chk Sy sxor s0 fuel perm s = MLModel.ml_finish sxor s0 fuel perm s /\
+  (exists s1 o, MLFinish.red Sy sxor fuel perm s = Some s1 /\
+                SolveBounds.ml_tail_chk Sy sxor s0 (ITModel.n s - ITModel.r s) s1 = Some o /\ MLModel.ml_finish sxor s0 fuel perm s = Some o).
+Proof. exact SolveBounds.ml_finish_chk_safe. Qed.
+
+Print Assumptions solver_stays_within_the_matrix_given.
+Print Assumptions ml_finish_index_translation_stays_in_range.
 Print Assumptions popcount_array_correct.
 Print Assumptions dense_row_weight_ignore_first.
 Print Assumptions dense_get_after_set.
